@@ -9,6 +9,7 @@ import (
 	"context"
 	"fmt"
 	"strings"
+	"sync"
 	"testing"
 	"time"
 
@@ -33,7 +34,10 @@ type c09Case struct {
 	Will      bool         `json:"will,omitempty"`
 	User      bool         `json:"user,omitempty"`
 	IDKind    int          `json:"idKind,omitempty"` // 0 "verif-c09", 1 empty, 2 300 bytes, 3 non-ASCII
-	PingS     int          `json:"pingS,omitempty"`  // WithPingInterval in seconds (never due within a case); CONNECT must not change
+	// InHandler (stop = disconnect, phase connected): Disconnect is called by the application's message handler, i.e. on the
+	// client's reader goroutine, when a message arrives - not from a goroutine of its own
+	InHandler bool `json:"inHandler,omitempty"`
+	PingS     int  `json:"pingS,omitempty"` // WithPingInterval in seconds (never due within a case); CONNECT must not change
 }
 
 func c09ClientID(kind int) string {
@@ -195,7 +199,7 @@ func c09Run(tb rapid.TB, c c09Case) {
 			tStop, seqStop = time.Now(), log.add(0, "STOP", nil, "context cancelled")
 			return
 		}
-		go func() {
+		callDisconnect := func() {
 			defer func() {
 				if r := recover(); r != nil {
 					stopPanic = r
@@ -205,7 +209,39 @@ func c09Run(tb rapid.TB, c c09Case) {
 			dctx, dc := context.WithTimeout(context.Background(), 30*time.Second)
 			defer dc()
 			discRet <- cli.Disconnect(dctx)
-		}()
+		}
+		viaHandler := false
+		if c.InHandler && c.StopPhase == "connected" {
+			if bc := d.currentConn(); bc != nil {
+				var once sync.Once
+				cli.Handle(HandlerFunc(func(m *Message) {
+					if m.Topic == "stop" {
+						once.Do(func() {
+							log.add(0, "STOP-IN-HANDLER", nil, "")
+							callDisconnect()
+						})
+					}
+				}))
+				b.mu.Lock()
+				bc.send(refPacket{Type: rtPublish, Topic: "stop", Payload: []byte("x")}, false, "")
+				b.mu.Unlock()
+				viaHandler = vWaitUntil(2*time.Second, func() bool {
+					select {
+					case <-cli.disconnected:
+						return true
+					default:
+						return false
+					}
+				})
+			}
+		}
+		if !viaHandler {
+			select {
+			case <-cli.disconnected:
+			default:
+				go callDisconnect() // (the message did not get through: that connection was already gone)
+			}
+		}
 		// the stop takes effect when 'disconnected' is closed (first statement of Disconnect)
 		vWaitUntil(10*time.Second, func() bool {
 			select {
@@ -529,6 +565,7 @@ func c09Gen(rt *rapid.T) c09Case {
 		User:      rapid.Bool().Draw(rt, "user"),
 		IDKind:    rapid.SampledFrom([]int{0, 0, 1, 2, 3}).Draw(rt, "idKind"),
 		PingS:     rapid.SampledFrom([]int{0, 0, 2, 100}).Draw(rt, "pingS"),
+		InHandler: rapid.Bool().Draw(rt, "inHandler"),
 	}
 	c.MaxUs = c.BaseUs * rapid.SampledFrom([]int{1, 2, 4, 8}).Draw(rt, "maxMul")
 	if rapid.IntRange(0, 9).Draw(rt, "maxBelowBase") == 0 {
